@@ -78,14 +78,40 @@ static void run(const Red& rd, uint64_t seed, long case0, long ncases, int npoin
     orich->draw(r, dr, rn);          // values for the parameters only the rich solution has (R, a_*t, ...)
     orc::Ctx base; base.sol = rd.simple; base.nx = os->nargs;
     set_ctx("reduce:" + rd.name, "setting parameters");
-    masa_select_mms<S>("simple");
-    for (auto& n : sn) { masa_set_param<S>(n, (S)ds.v[n]); base.P[n] = EQ::exact((orc::Q)masa_get_param<S>(n)); }
-    masa_select_mms<S>("rich");
-    for (auto& n : rn) masa_set_param<S>(n, (S)dr.v[n]);
     int shared = 0;
-    for (auto& n : sn) if (rset.count(n)) { masa_set_param<S>(n, (S)ds.v[n]); shared++; }
-    // the specialising assignments come AFTER the copy (the Euler classes register dead k, mu)
-    for (auto& z : rd.zero) masa_set_param<S>(z, S(0));
+    bool wrong = false;
+    // the two solutions live on two handles of one process: whichever way the handles were (re-)initialised and selected, the
+    // handle named must be the one that answers (checked through masa_get_name before anything is set or compared)
+    auto expect = [&](const std::string& h, const std::string& sol, const std::string& how) {
+      std::string got; masa_get_name<S>(&got);
+      if (got != sol && !wrong) {
+        wrong = true;
+        LOG.viol("C20", "wrong-solution-answers-for-handle:" + rd.name, "after " + how + " of handle '" + h + "' (" + sol + ") the library answers for '" + got + "'",
+                 JObj().str("reduction", rd.name).str("handle", h).str("expected", sol).str("answers", got).str("history", how).num("case", cs).done());
+      }
+    };
+    auto sel = [&](const std::string& h, const std::string& sol) { CAP.begin(); masa_select_mms<S>(h); CAP.end(); expect(h, sol, "masa_select_mms"); };
+    auto ini = [&](const std::string& h, const std::string& sol) { CAP.begin(); masa_init<S>(h, sol); CAP.end(); expect(h, sol, "masa_init (re-initialisation)"); };
+    auto cfg_simple = [&] { for (auto& n : sn) { masa_set_param<S>(n, (S)ds.v[n]); base.P[n] = EQ::exact((orc::Q)masa_get_param<S>(n)); } };
+    auto cfg_rich = [&] {
+      for (auto& n : rn) masa_set_param<S>(n, (S)dr.v[n]);
+      shared = 0;
+      for (auto& n : sn) if (rset.count(n)) { masa_set_param<S>(n, (S)ds.v[n]); shared++; }
+      // the specialising assignments come AFTER the copy (the Euler classes register dead k, mu)
+      for (auto& z : rd.zero) masa_set_param<S>(z, S(0));
+    };
+    // histories: 0 select each and configure | 1 select(rich), re-init(simple), configure it unselected-by-name, select(rich) |
+    // 2 select(simple), re-init(rich), configure, select(simple) | 3 both re-initialised, rich configured first
+    int variant = r.below(4);
+    LOG.count("history_variant_" + std::to_string(variant), 1);
+    switch (variant) {
+      case 0: sel("simple", rd.simple); if (!wrong) cfg_simple(); sel("rich", rd.rich); if (!wrong) cfg_rich(); break;
+      case 1: sel("rich", rd.rich); ini("simple", rd.simple); if (!wrong) cfg_simple(); sel("rich", rd.rich); if (!wrong) cfg_rich(); break;
+      case 2: sel("simple", rd.simple); ini("rich", rd.rich); if (!wrong) cfg_rich(); sel("simple", rd.simple); if (!wrong) cfg_simple(); break;
+      default: ini("simple", rd.simple); ini("rich", rd.rich); if (!wrong) cfg_rich(); sel("simple", rd.simple); if (!wrong) cfg_simple(); break;
+    }
+    if (wrong) continue;
+    sel("rich", rd.rich);
     for (auto& z : rd.zero) if (masa_get_param<S>(z) != S(0)) harness_fail("specialising assignment not in force: " + z);
     LOG.count("parameter_vectors", 1);
     LOG.distinct("reductions", rd.name);
@@ -102,10 +128,11 @@ static void run(const Red& rd, uint64_t seed, long case0, long ncases, int npoin
         int ri = ev_index(pr.first), si = ev_index(pr.second);
         if (ri < 0 || si < 0) harness_fail("bad evaluator id in reduction table: " + pr.first + " / " + pr.second);
         set_ctx("reduce:" + rd.name + ":" + pr.first, rd.name + " " + pr.first);
-        masa_select_mms<S>("rich");
+        sel("rich", rd.rich);
         CAP.begin(); S vr = call_ev<S>(api()[ri], a, 0, nullptr); CAP.end();
-        masa_select_mms<S>("simple");
+        sel("simple", rd.simple);
         CAP.begin(); S vs = call_ev<S>(api()[si], a, 0, nullptr); CAP.end();
+        if (wrong) break;
         auto it = c.out.find(pr.second);
         if (it == c.out.end()) harness_fail("oracle of " + rd.simple + " has no " + pr.second);
         double scale = std::max(it->second.ref.e, orc::absd(it->second.ref.v));
